@@ -349,6 +349,7 @@ def run(ctx):
     ctx.rule("R01.j", "String/Bytes with a regex accept a well-typed value iff the regex matches it (empty strings included) and None iff allow_None (abstract interpretation of the full validator, re.match as abstract input)", floor=2)
     ctx.rule("R01.k", "class creation re-validates an inherited-constraints default whenever the type changed or a slot was overridden, for every default other than None "
                       "(the guard of the _validate call in __param_inheritance, evaluated on None / falsy / truthy defaults x trigger flags)", floor=1)
+    ctx.rule("R01.l", "selector model: the validators of Selector and ListSelector interpreted abstractly (objects from a list / from a dict / a dict-declared selector after a list-style replacement x allow_None x check_on_set x None / object in force / object names still mentions / unknown object, 104 cases): accepted iff None with allow_None or one of the objects in force (_objects); nothing appended under check_on_set, unknown values appended once without it", floor=1)
     ctx.rule("R01.g", "every _validate_value override below Tuple checks isinstance(val, tuple) (itself or via super) before iterating the value", floor=3)
     ctx.rule("R01.m", "setter model: Parameter.__set__ interpreted abstractly on every combination (576) of route x constant/readonly x validation outcome x identity x reference mode x watchers x batching agrees with the specification of this property (see checks/setter_model.py)", floor=1)
     ctx.not_decided += ["semantics of re.match / isinstance / `in` (trusted library operations: only that they are consulted is checked)",
@@ -365,6 +366,8 @@ def run(ctx):
     rule_regex(ctx)
     from checks.shared import inherited_default_revalidated
     inherited_default_revalidated(ctx, "R01.k")
+    from checks import selector_model
+    selector_model.report(ctx, "R01.l")
 
     # model-level rule, run last (see DESIGN §10)
     from checks import setter_model
